@@ -77,6 +77,14 @@ func (c *TimedCheck) SetSleepDuration(newDuration time.Duration) {
 	c.sleepDuration.Set(newDuration.Nanoseconds())
 }
 
+// SetTimeAfterFunc changes the function used to schedule the end of a sleep.  Unlike assigning TimeAfterFunc
+// directly, it is safe to call while the TimedCheck is in use.
+func (c *TimedCheck) SetTimeAfterFunc(f func(time.Duration, func()) *time.Timer) {
+	c.mu.Lock()
+	c.TimeAfterFunc = f
+	c.mu.Unlock()
+}
+
 func (c *TimedCheck) afterFunc(d time.Duration, f func()) *time.Timer {
 	if c.TimeAfterFunc == nil {
 		return time.AfterFunc(d, f)
